@@ -337,7 +337,7 @@ Definition default_dcfg : dcfg := {| max_doc_size := cbeDefaultMaxDocumentSizeBy
 Inductive dres := DOk | DErr.
 Definition dres_is_err (r : dres) : bool := match r with DErr => true | DOk => false end.
 
-(* reader state: Reader.bytesRead and the unread input *)
+(* reader state: Reader.bytesRead (bytes of the current document consumed so far) and the unread input *)
 Definition rstate := (N * bytes)%type.
 
 (* markBytesRead *)
@@ -367,10 +367,28 @@ Definition read_le (cfg : dcfg) (n : nat) (s : rstate) : option (N * rstate) :=
   | None => None
   end.
 
-(* readSmallULEB128: bytes of a ULEB128 are not counted by markBytesRead *)
-Definition read_uleb (maxv : N) (s : rstate) : option (N * rstate) :=
-  match uleb_decode_u64 (snd s) with
-  | Some (v, r) => if maxv <? v then None else Some (v, (fst s, r))
+(* A ULEB128 field read through uleb128.DecodeWithByteBuffer: the value, whether the
+   library reports it as a big.Int (see Base/Uleb.v), and the reader state afterwards.
+   The Reader hands itself to the library as the io.Reader, so every byte of the
+   field is counted by markBytesRead as it is consumed. *)
+Definition uleb_is_big (b : bytes) (v : N) : bool :=
+  let n := uleb_span b in negb ((n <=? 9)%nat || ((n <=? 18)%nat && (v <? two64))).
+
+Definition read_uleb_raw (cfg : dcfg) (s : rstate) : option (N * bool * nat * rstate) :=
+  match uleb_decode (snd s) with
+  | Some (v, r) =>
+      let n := uleb_span (snd s) in
+      match mark cfg (N.of_nat n) (fst s) with
+      | Some br => Some (v, uleb_is_big (snd s) v, n, (br, r))
+      | None => None
+      end
+  | None => None
+  end.
+
+(* readSmallULEB128: big.Int results and values above the limit are errors *)
+Definition read_uleb (cfg : dcfg) (maxv : N) (s : rstate) : option (N * rstate) :=
+  match read_uleb_raw cfg s with
+  | Some (v, big, _, s') => if big || (maxv <? v) then None else Some (v, s')
   | None => None
   end.
 
@@ -379,7 +397,7 @@ Definition max_u64 : N := two64 - 1.
 (* ReadIdentifier: the limit is a literal in the code *)
 Definition identifier_max_length : N := 100000.
 Definition read_identifier (cfg : dcfg) (s : rstate) : option (bytes * rstate) :=
-  match read_uleb identifier_max_length s with
+  match read_uleb cfg identifier_max_length s with
   | Some (n, s1) => if n =? 0 then None else read_bytes cfg n s1
   | None => None
   end.
@@ -406,31 +424,28 @@ Definition dec_bf16 (h : N) : N :=
 (* compact_float.DecodeWithByteBuffer *)
 Definition cf_max_encoded_exponent : N := 0x1ffffffff.
 
-Definition uleb_is_big (b : bytes) (v : N) : bool :=
-  let n := uleb_span b in negb ((n <=? 9)%nat || ((n <=? 18)%nat && (v <? two64))).
-
-Definition dec_decimal (b : bytes) : option (event * bytes) :=
-  match uleb_decode_u64 b with
+Definition dec_decimal (cfg : dcfg) (s : rstate) : option (event * rstate) :=
+  match read_uleb_raw cfg s with
   | None => None
-  | Some (f, b1) =>
-      let n := uleb_span b in
-      if (n =? 1)%nat && (f =? 2) then Some (EDecimal (DFin false 0 0), b1)
-      else if (n =? 1)%nat && (f =? 3) then Some (EDecimal (DFin true 0 0), b1)
-      else if (n =? 2)%nat && (f =? 0) then Some (EDecimal DQNan, b1)
-      else if (n =? 2)%nat && (f =? 1) then Some (EDecimal DSNan, b1)
-      else if (n =? 2)%nat && (f =? 2) then Some (EDecimal (DInf false), b1)
-      else if (n =? 2)%nat && (f =? 3) then Some (EDecimal (DInf true), b1)
+  | Some (f, big, n, s1) =>
+      if big then None
+      else if (n =? 1)%nat && (f =? 2) then Some (EDecimal (DFin false 0 0), s1)
+      else if (n =? 1)%nat && (f =? 3) then Some (EDecimal (DFin true 0 0), s1)
+      else if (n =? 2)%nat && (f =? 0) then Some (EDecimal DQNan, s1)
+      else if (n =? 2)%nat && (f =? 1) then Some (EDecimal DSNan, s1)
+      else if (n =? 2)%nat && (f =? 2) then Some (EDecimal (DInf false), s1)
+      else if (n =? 2)%nat && (f =? 3) then Some (EDecimal (DInf true), s1)
       else if cf_max_encoded_exponent <? f then None
       else
         let cneg := N.odd f in
         let eneg := N.odd (f / 2) in
         let e := Z.of_N (f / 4) in
         let exp := if eneg then (- e)%Z else e in
-        match uleb_decode b1 with
+        match read_uleb_raw cfg s1 with
         | None => None
-        | Some (c, b2) =>
-            if uleb_is_big b1 c || (two63 <=? c) then Some (EBigDecimal (Some (DFin cneg c exp)), b2)
-            else Some (EDecimal (DFin (cneg && negb (c =? 0)) c exp), b2)
+        | Some (c, cbig, _, s2) =>
+            if cbig || (two63 <=? c) then Some (EBigDecimal (Some (DFin cneg c exp)), s2)
+            else Some (EDecimal (DFin (cneg && negb (c =? 0)) c exp), s2)
         end
   end.
 
@@ -446,7 +461,7 @@ Fixpoint dec_chunks (cfg : dcfg) (fuel : nat) (width : N) (s : rstate) : tokres 
   match fuel with
   | O => ([], None)
   | S f =>
-      match read_uleb max_u64 s with
+      match read_uleb cfg max_u64 s with
       | None => ([], None)
       | Some (h, s1) =>
           let count := h / 2 in
@@ -478,7 +493,7 @@ Definition media_type_max_length : N := 0xffffffff.     (* literals in decodeMed
 Definition custom_type_max : N := 0xffffffff.
 
 Definition dec_media (cfg : dcfg) (s : rstate) : tokres :=
-  match read_uleb media_type_max_length s with
+  match read_uleb cfg media_type_max_length s with
   | None => ([], None)
   | Some (n, s1) =>
       match read_bytes cfg n s1 with
@@ -489,7 +504,7 @@ Definition dec_media (cfg : dcfg) (s : rstate) : tokres :=
   end.
 
 Definition dec_custom (cfg : dcfg) (s : rstate) : tokres :=
-  match read_uleb custom_type_max s with
+  match read_uleb cfg custom_type_max s with
   | None => ([], None)
   | Some (ct, s1) =>
       let '(evs, r) := dec_chunks cfg (chunks_fuel s1) 8 s1 in (ECustomBegin cbeAT_CustomBinary ct :: evs, r)
@@ -497,7 +512,7 @@ Definition dec_custom (cfg : dcfg) (s : rstate) : tokres :=
 
 (* ReadUint + the two callers *)
 Definition dec_var_int (cfg : dcfg) (neg : bool) (s : rstate) : tokres :=
-  match read_uleb (cbeMaxBigIntBitCount / 8) s with
+  match read_uleb cfg (cbeMaxBigIntBitCount / 8) s with
   | None => ([], None)
   | Some (n, s1) =>
       match read_bytes cfg n s1 with
@@ -633,8 +648,8 @@ Definition dec_token (cfg : dcfg) (s : rstate) : tokres :=
       | KSmallInt z => tok_one (EInt z) s1
       | KBad => tok_fail
       | KDecimal =>
-          match dec_decimal (snd s1) with
-          | Some (e, r) => tok_one e (fst s1, r)
+          match dec_decimal cfg s1 with
+          | Some (e, s2) => tok_one e s2
           | None => tok_fail
           end
       | KVarInt neg => dec_var_int cfg neg s1
@@ -689,7 +704,7 @@ Definition cbe_decode (cfg : dcfg) (doc : bytes) : list event * dres :=
   | None => ([EBeginDoc], DErr)
   | Some (sig, s1) =>
       if negb (sig =? cbeSignatureByte) then ([EBeginDoc], DErr)
-      else match read_uleb max_u64 s1 with
+      else match read_uleb cfg max_u64 s1 with
            | None => ([EBeginDoc], DErr)
            | Some (v, s2) =>
                let ver := if v =? 1 then 0 else v in
